@@ -95,6 +95,8 @@ type c17Group struct {
 	work     *cfg.WorkHours
 	keys     []data.PublicKey
 	conn     int
+	tailFA   int // 0 none; 1: Weight(250) is the group's LAST setting; 2: a kill date whose low byte is 0xFA is last
+	//          (the group's encoding then ends in 0xFA, the value of the group separator)
 	settings []cfg.Setting
 	ref      cfg.Profile // the same settings built alone (single profile): reference values
 	refW     cfg.Wrapper
@@ -212,6 +214,14 @@ func c17GenGroup(r *Rng, j int, n int) *c17Group {
 		g.tv = 200 + j%50
 	}
 	g.conn = r.Intn(len(c17Conns))
+	if r.Chance(12) {
+		g.tailFA = 1 + r.Intn(2)
+		if g.tailFA == 1 {
+			g.weight = 250
+		} else {
+			g.kill, g.killAt = 2, time.Unix(int64(1700000000+j*86400)&^0xFF|0xFA, 0)
+		}
+	}
 	return g
 }
 
@@ -220,7 +230,7 @@ func (g *c17Group) build() error {
 	for _, h := range g.hosts {
 		s = append(s, cfg.Host(h))
 	}
-	if g.weight > 0 {
+	if g.weight > 0 && g.tailFA != 1 {
 		s = append(s, cfg.Weight(uint(g.weight)))
 	}
 	if g.sleep > 0 {
@@ -229,10 +239,11 @@ func (g *c17Group) build() error {
 	if g.jitter >= 0 {
 		s = append(s, cfg.Jitter(uint(g.jitter)))
 	}
-	switch g.kill {
-	case 1:
+	switch {
+	case g.tailFA == 2:
+	case g.kill == 1:
 		s = append(s, cfg.KillDate(time.Time{}))
-	case 2:
+	case g.kill == 2:
 		s = append(s, cfg.KillDate(g.killAt))
 	}
 	if g.work != nil {
@@ -245,6 +256,12 @@ func (g *c17Group) build() error {
 	s = append(s, c17Transform(g.tv)...)
 	if c := c17Conns[g.conn]; c != nil {
 		s = append(s, c)
+	}
+	switch g.tailFA {
+	case 1:
+		s = append(s, cfg.Weight(uint(g.weight)))
+	case 2:
+		s = append(s, cfg.KillDate(g.killAt))
 	}
 	g.settings = s
 	// reference: the group's own settings (without selector) built alone
@@ -343,6 +360,7 @@ type c17Case struct {
 	ops     []c17Op
 	keys    []data.PublicKey
 	connTag map[string]int
+	tailFA  int // groups whose encoding ends in 0xFA
 }
 
 func c17Draw(r *Rng) uint32 {
@@ -408,10 +426,13 @@ func c17Gen(r *Rng, malformed bool) (*c17Case, error) {
 				}
 			}
 		}
-		if r.Bool() {
+		if r.Bool() && g.tailFA == 0 {
 			s = append(s, sels...)
 		} else {
 			s = append(sels, s...)
+		}
+		if g.tailFA != 0 {
+			cs.tailFA++
 		}
 		if len(s) == 0 { // a group with no settings at all is skipped by Build; keep it non-empty
 			s = append(s, cfg.Jitter(uint((j*7+3)%101)))
@@ -945,6 +966,7 @@ func c17CheckOwn(cs *c17Case, g *c17Group, p cfg.Profile, op c17Op, res string, 
 }
 
 func runC17(c *Ctx) {
+	c17Ews(c) // the host container of the ews build variant (c17_ews.go)
 	insMax := 12
 	if zs, err := os.ReadFile(runtime.GOROOT() + "/src/sort/zsortinterface.go"); err == nil {
 		if mi := regexp.MustCompile(`maxInsertion\s*=\s*(\d+)`).FindStringSubmatch(string(zs)); mi != nil {
@@ -960,6 +982,9 @@ func runC17(c *Ctx) {
 		n := len(cs.groups)
 		c.Count(fmt.Sprintf("groups:%d", n))
 		c.Count("selector:" + c17SelName[cs.sel])
+		if cs.tailFA > 0 {
+			c.Count("groups:encoding-ends-in-0xFA")
+		}
 		// entries first (fixes the connector tag table before the history runs)
 		var ents []string
 		for _, g := range cs.groups {
